@@ -3,6 +3,7 @@ package checks
 import (
 	"fmt"
 	"math/big"
+	"regexp"
 	"sync/atomic"
 	"unicode/utf8"
 
@@ -341,6 +342,82 @@ func refSchema(v interface{}, s bson.D) schemaVerdict {
 					}
 				}
 			}
+		case "patternProperties":
+			pats, ok := kw.Value.(bson.D)
+			if !ok {
+				return svOutside
+			}
+			d, isDoc := v.(bson.D)
+			for _, p := range pats {
+				sub, ok := p.Value.(bson.D)
+				if !ok {
+					return svOutside
+				}
+				re, err := regexp.Compile(p.Key)
+				if err != nil {
+					return svOutside
+				}
+				if !isDoc {
+					continue
+				}
+				// every member whose name matches is validated, whether or not it is also declared in properties
+				for _, e := range d {
+					if re.MatchString(e.Key) {
+						and(refSchema(e.Value, sub))
+					}
+				}
+			}
+		case "additionalProperties":
+			d, isDoc := v.(bson.D)
+			var sub bson.D
+			switch a := kw.Value.(type) {
+			case bool:
+				if a {
+					continue
+				}
+				sub = nil
+			case bson.D:
+				sub = a
+			default:
+				return svOutside
+			}
+			if !isDoc {
+				break
+			}
+			declared := map[string]bool{}
+			if props, ok := has("properties"); ok {
+				if pd, ok := props.(bson.D); ok {
+					for _, p := range pd {
+						declared[p.Key] = true
+					}
+				}
+			}
+			var res []*regexp.Regexp
+			if pats, ok := has("patternProperties"); ok {
+				if pd, ok := pats.(bson.D); ok {
+					for _, p := range pd {
+						if re, err := regexp.Compile(p.Key); err == nil {
+							res = append(res, re)
+						}
+					}
+				}
+			}
+			for _, e := range d {
+				extra := !declared[e.Key]
+				for _, re := range res {
+					if re.MatchString(e.Key) {
+						extra = false
+					}
+				}
+				if !extra {
+					continue
+				}
+				if sub == nil {
+					and(svFalse)
+				} else {
+					and(refSchema(e.Value, sub))
+				}
+			}
 		case "items":
 			sub, ok := kw.Value.(bson.D)
 			if !ok {
@@ -452,6 +529,13 @@ func c10SchemaLeaves() []bson.D {
 	add("properties", bD("x", bD("type", "number")))
 	add("properties", bD("x", bD("bsonType", "string"), "y", bD("minimum", int32(2))))
 	add("properties", bD("x", bD("properties", bD("z", bD("type", "number")), "required", bson.A{"z"})))
+	add("patternProperties", bD("^x", bD("type", "number")))
+	add("properties", bD("x", bD("type", "number")), "patternProperties", bD("^x", bD("minimum", int32(2))))
+	add("properties", bD("x", bson.D{}), "patternProperties", bD("y$", bD("type", "null"), "^w", bD("type", "array")))
+	add("properties", bD("x", bson.D{}), "additionalProperties", false)
+	add("patternProperties", bD("^(x|y)$", bson.D{}), "additionalProperties", false)
+	add("properties", bD("x", bson.D{}), "additionalProperties", bD("type", "number"))
+	add("additionalProperties", true)
 	add("items", bD("type", "number"))
 	add("items", bD("bsonType", "object", "required", bson.A{"x"}))
 	add("items", bD("minimum", int32(2)))
